@@ -1,7 +1,7 @@
 (* C22: lemmas over Model/C22Memo.v (generic memo table under all schedules) and Model/C22Sched.v (translator cache). *)
 From Coq Require Import List Bool Arith Lia.
 Import ListNotations.
-Require Import PonyV.Model.C22Memo PonyV.Model.C22Sched.
+Require Import PonyV.Model.C22Memo PonyV.Model.C22Sched PonyV.Model.C22Key.
 
 (* ------------------------------------------------------------------------------------------------ generic memo theorem *)
 Section MemoProofs.
@@ -144,3 +144,29 @@ Proof. destruct o, l; cbn; congruence. Qed.
 
 Lemma guard_refuted o l : unguarded o l = true -> guard o l = false.
 Proof. destruct o, l; cbn; congruence. Qed.
+
+(* ------------------------------------------------------------------------------------------------ translator cache key *)
+Section KeySound.
+  Variables Code VT Filt Val Tr : Type.
+  Variable veqb : Val -> Val -> bool.
+  Hypothesis veqb_eq : forall x y, veqb x y = true -> x = y.
+  Variable translate : qinput Code VT Filt Val -> Tr.
+  (* the parameters whose VALUE the translation of a query with this key depends on *)
+  Variable fixed_of : Code * VT * bool * Filt -> list nat.
+  (* read-set hypothesis (C05): the translation reads nothing but the key components and the values of those parameters *)
+  Hypothesis read_set : forall i j, qkey _ _ _ _ i = qkey _ _ _ _ j ->
+    (forall p, In p (fixed_of (qkey _ _ _ _ i)) -> q_vals _ _ _ _ i p = q_vals _ _ _ _ j p) -> translate i = translate j.
+
+  (* an entry stored under key k by the query j that created it: it records the value of every parameter it fixed *)
+  Definition entry_ok (e : tentry Val Tr) (k : Code * VT * bool * Filt) : Prop :=
+    exists j, qkey _ _ _ _ j = k /\ e_tr _ _ e = translate j /\ forall p, In p (fixed_of k) -> In (p, q_vals _ _ _ _ j p) (e_fixed _ _ e).
+
+  (* key tuple + comparison of the recorded fixed values is sound: whatever the lookup hands out is the translation of THIS query *)
+  Lemma key_sound e i t : entry_ok e (qkey _ _ _ _ i) -> accept Code VT Filt Val Tr veqb e i = Some t -> t = translate i.
+  Proof.
+    intros (j & Hk & Ht & Hf) H. unfold accept in H.
+    destruct (forallb _ (e_fixed Val Tr e)) eqn:F; [|discriminate]. injection H as <-. rewrite Ht.
+    apply read_set; [exact Hk|]. intros p Hp. rewrite Hk in Hp.
+    rewrite forallb_forall in F. specialize (F _ (Hf p Hp)). cbn in F. now apply veqb_eq in F.
+  Qed.
+End KeySound.
